@@ -99,7 +99,7 @@ pub fn check_program(ctx: &mut Ctx, h: &H, src: &str, tag: &str) {
     }
 }
 
-fn operand(i: usize) -> H {
+pub fn operand(i: usize) -> H {
     let big = |sh: u32, add: i64, neg: bool| {
         let v = (BigInt::from(1u8) << sh) + BigInt::from(add);
         if neg { H::Neg(hb(H::Lit(v))) } else { H::Lit(v) }
@@ -121,11 +121,18 @@ fn operand(i: usize) -> H {
         13 => H::lit(7),
         14 => H::Neg(hb(H::lit(7))),
         15 => big(200, 12345, false),
-        _ => big(200, 12345, true),
+        16 => big(200, 12345, true),
+        // the edges of the machine integer types
+        17 => big(63, -1, false),
+        18 => big(63, -1, true),
+        19 => big(31, 0, false),
+        20 => big(31, 0, true),
+        21 => big(32, -1, false),
+        _ => big(63, 1, true),
     }
 }
 
-const NOPER: usize = 17;
+pub const NOPER: usize = 23;
 
 // Programs whose effect (division by zero) sits in an evaluated or unevaluated position.
 fn planted(p: &H, k: u64) -> (H, &'static str) {
@@ -156,7 +163,7 @@ impl Prop for C02P {
                 sec("inferred-programs", tier.pick(18_000, 120_000)),
                 sec("planted-effects", tier.pick(10_000, 80_000)),
             ],
-            "generated explicit and inferred programs (integers beyond 64 and 200 bits, recursion, mutual recursion, groups of 1-5 definitions, higher-order and polymorphic functions) run by gram and by an environment-based call-by-value reference interpreter on the source AST; every arithmetic and comparison operator on every pair of 17 operands (0, +-1..3, +-7, +-2^63, +-2^64, +-(2^64+1), +-(2^200+12345)); int programs wrapped so that a division by zero sits in an evaluated or an unevaluated position (8 placements); gram's step budget is 20 x reference reductions + 200; non-trivial = distinct program on which both sides produced an outcome that was compared",
+            "generated explicit and inferred programs (integers beyond 64 and 200 bits, recursion, mutual recursion, groups of 1-5 definitions, higher-order and polymorphic functions) run by gram and by an environment-based call-by-value reference interpreter on the source AST; every arithmetic and comparison operator on every pair of 23 operands (0, +-1..3, +-7, +-2^31, 2^32-1, +-(2^63-1), +-2^63, -(2^63+1), +-2^64, +-(2^64+1), +-(2^200+12345)); int programs wrapped so that a division by zero sits in an evaluated or an unevaluated position (8 placements); gram's step budget is 20 x reference reductions + 200; non-trivial = distinct program on which both sides produced an outcome that was compared",
         );
         p.assumptions = vec![
             "R-eval (harness/src/reval.rs) is the semantics of DESIGN.md A.7; truncating division is derived from unsigned magnitudes".into(),
